@@ -102,7 +102,8 @@ namespace avel {
     [[nodiscard]]
     AVEL_FINL std::int32_t abs(std::int32_t x) {
         if (x < 0) {
-            return -x;
+            // Negate as unsigned: -x overflows for the minimum value
+            return static_cast<std::int32_t>(std::uint32_t{0} - static_cast<std::uint32_t>(x));
         } else {
             return x;
         }
